@@ -265,6 +265,7 @@ func (u *Unit) execCallVals(st *State, fr *Frame, site ssa.Instruction, c *ssa.C
 		}
 		// 4. in-repo function without a contract: unknown effects
 		if callee.Pkg != nil && strings.HasPrefix(callee.Pkg.Pkg.Path(), modulePath) {
+			u.lockSetCall(st, fr, site, callee, nil, nil)
 			u.abstracted("call to in-repo function without contract: " + callee.String())
 			u.unknownCall(st, fr, site, sig, desigs, argT, true, k)
 			return
@@ -818,6 +819,9 @@ func (u *Unit) applyContract(st *State, fr *Frame, site ssa.Instruction, callee 
 	names := u.paramNames(callee, ct, sig, len(args) == sig.Params().Len()+1 && sig.Recv() == nil)
 	ptys := paramTypes(callee, sig, len(args))
 	u.bindParams(env, names, ptys, args)
+	if !trusted {
+		u.lockSetCall(st, fr, site, callee, ct, env)
+	}
 	tags := unionTags(ct)
 	// requires
 	for i, cl := range ct.Clauses {
